@@ -38,6 +38,7 @@ type RunConfig struct {
 	SchedFixed       bool // option sched_fixed: no decision at blocking/exit switches (first enabled thread runs)
 	SamplePaths      int
 	ShadowBin        string // second solver cross-checking assertion verdicts ("" = off)
+	Forced           map[string]uint64 // interpreter replay: nondet values fixed to a model
 }
 
 func defaultConfig(tier string) *RunConfig {
@@ -74,6 +75,7 @@ type Violation struct {
 	Trace   []Decision        `json:"trace"`
 	FS      []FSEntry         `json:"fs,omitempty"`
 	Sig     string            `json:"signature"`
+	EnvDep  bool              `json:"depends_on_schedule_or_map_order"`
 	Count   int               `json:"count"`
 }
 
